@@ -1567,6 +1567,13 @@ class Exec:
                 c4 = [f for f in c2 if type_head(f.params[0][1]) == type_head(rt)]
                 if c4:
                     c2 = c4
+        if len(c2) > 1 and tyname:
+            # derive-generated impls (header is just the derive token): decide by the return / first parameter type
+            c5 = [f for f in c2 if type_head(f.ret) == tyname or (f.params and type_head(f.params[0][1]) == tyname)]
+            if c5:
+                c2 = c5
+            elif all(not header_has(f, tyname) for f in c2):
+                return None     # none of the candidates is an impl for this type: the callee is not in the loaded dumps
         if len(c2) == 1:
             return c2[0]
         if len(c2) > 1:
